@@ -37,6 +37,7 @@ func unaryF(req []byte) []byte {
 //   early:K         return after receiving K messages, without reading the rest
 //   fail:K:CODE     consume K messages, then return status CODE with message "boom <K>"
 //   hold            block until the stream's context is done, return its error
+//   badsend:K       consume K messages, fail one SendMsg in the codec, return nil
 //
 // Messages the handler originates are "s<i>" (i from 0).
 
@@ -187,6 +188,18 @@ func InstallPrograms(impl *Impl, log *HandlerLog, gate func(tag string)) {
 		case "hold":
 			<-ctx.Done()
 			return finish(ctx.Err())
+		case "badsend":
+			// consume K messages, try to send a value the codec cannot encode (SendMsg fails, nothing
+			// leaves), and return without reading the rest
+			for i := 0; i < arg(1); i++ {
+				if _, err := recv(); err != nil {
+					break
+				}
+			}
+			if err := ss.SendMsg("not a proto message"); err == nil {
+				return finish(errors.New("unencodable message accepted"))
+			}
+			return finish(nil)
 		}
 		// no program named (a stream the caller never opened as such): behave like an ordinary handler
 		// that consumes its input until it ends
